@@ -99,19 +99,39 @@ class Expander:
         T <= N, which makes the expansion exact (models with longer sequences are simply not searched)."""
         N = self.int_bound
         if t.is_forall():
-            if not (z3.is_app(body) and body.decl().kind() == z3.Z3_OP_IMPLIES):
+            if z3.is_app(body) and body.decl().kind() == z3.Z3_OP_IMPLIES:
+                guards = [body.arg(0)]
+            elif z3.is_or(body):
+                # simplified form of an implication:  not G1 or not G2 or R   ==   (G1 and G2) -> R
+                guards = [d.arg(0) for d in body.children() if z3.is_not(d)]
+            elif z3.is_not(body):
+                guards = [body.arg(0)]
+            else:
                 return {}
-            guard = body.arg(0)
         else:
-            guard = body
-        conj = guard.children() if z3.is_and(guard) else [guard]
+            guards = [body]
+        conj, todo = [], list(guards)
+        while todo:      # nested conjunctions are flattened
+            g = todo.pop()
+            if z3.is_and(g):
+                todo.extend(g.children())
+            else:
+                conj.append(g)
         ids = {c.get_id(): k for k, c in enumerate(cs)}
         lower, upper = set(), {}
         for g in conj:
+            neg = False
+            if z3.is_not(g):      # not (a <= b) == b < a  etc. (z3.simplify writes strict bounds this way)
+                neg, g = True, g.arg(0)
             if not z3.is_app(g) or g.num_args() != 2:
                 continue
             kind = g.decl().kind()
             a, b = g.arg(0), g.arg(1)
+            if neg:
+                flip = {z3.Z3_OP_LE: z3.Z3_OP_GT, z3.Z3_OP_LT: z3.Z3_OP_GE, z3.Z3_OP_GE: z3.Z3_OP_LT, z3.Z3_OP_GT: z3.Z3_OP_LE}
+                if kind not in flip:
+                    continue
+                kind = flip[kind]
             if kind in (z3.Z3_OP_GE, z3.Z3_OP_GT):
                 a, b = b, a
                 kind = z3.Z3_OP_LE if kind == z3.Z3_OP_GE else z3.Z3_OP_LT
